@@ -342,7 +342,7 @@ func CheckKVStep(op Op, env Env, pre, post KVObs, res Result) []Violation {
 	if key == "j" {
 		other = "k"
 	}
-	if op.Name != "PurgeTombstones" && rowString(pre.Rows["sc.A/"+other]) != rowString(post.Rows["sc.A/"+other]) {
+	if op.Name != "PurgeTombstones" && op.Name != "ExpirySweep" && rowString(pre.Rows["sc.A/"+other]) != rowString(post.Rows["sc.A/"+other]) {
 		c.add("C01", "otherkey", "key %s changed from %s to %s", other, rowString(pre.Rows["sc.A/"+other]), rowString(post.Rows["sc.A/"+other]))
 	}
 
